@@ -300,12 +300,12 @@ pub fn run(tier: Tier, seed: u64) -> Report {
         let known = r.kf.is_known("C12", "analyze_exponential:unresolvable_recursive_type_next_to_alias_chain");
         let members: Vec<u64> = (0..CHAIN_COUNT).filter(|i| !(known && chain_source(*i).2)).collect();
         let inputs: Vec<Vec<u8>> = members.iter().map(|i| chain_source(*i).0.into_bytes()).collect();
-        let res = run_isolated_capped("c12_front", &inputs, 8192, 150, Some(8 * 1024 * 1024));
+        let res = run_isolated_capped("c12_front", &inputs, 8192, 600, Some(8 * 1024 * 1024));
         for (k, o) in res.iter().enumerate() {
             match o {
                 ChildOutcome::Died(why) if why.contains("timeout") => {
                     println!(
-                        "INCONCLUSIVE: property=C12 phase=definition_chains member {} ({}) did not return within 150 s in a child process",
+                        "INCONCLUSIVE: property=C12 phase=definition_chains member {} ({}) did not return within 600 s in a child process (the whole family normally takes seconds)",
                         members[k],
                         chain_source(members[k]).1
                     );
